@@ -54,7 +54,7 @@ func (a *sharedAnalysis) origins(fn *ssa.Function, v ssa.Value, seen map[ssa.Val
 			name = nt.Obj().Name()
 		}
 		if s, ok := t.Underlying().(*types.Struct); ok && i < s.NumFields() {
-			return name + "." + s.Field(i).Name()
+			return name + "." + core.RefName(s.Field(i))
 		}
 		return name + ".?"
 	}
@@ -140,7 +140,7 @@ func (a *sharedAnalysis) origins(fn *ssa.Function, v ssa.Value, seen map[ssa.Val
 		} else if x.Call.IsInvoke() {
 			// interface call: any implementation returning a holder
 			for _, f := range a.fns {
-				if f.Name() == x.Call.Method.Name() && a.retHold[f] {
+				if f.Name() == core.RefName(x.Call.Method) && a.retHold[f] {
 					out["holder:returned by "+f.Name()] = true
 					return
 				}
@@ -261,7 +261,7 @@ func SharedSets(p *core.Program, r *core.Report, rule string) {
 					if sc := c.StaticCallee(); sc != nil {
 						calleeName = sc.Name()
 					} else if c.IsInvoke() {
-						calleeName = c.Method.Name()
+						calleeName = core.RefName(c.Method)
 					}
 					construct := fmt.Sprintf("%s: operand #%d of %s is not a set held in long-lived state", fkey, pos, calleeName)
 					if len(holders) == 0 {
@@ -311,7 +311,7 @@ func SharedSets(p *core.Program, r *core.Report, rule string) {
 				if !isS || fa.Field >= stt.NumFields() {
 					continue
 				}
-				fnm := name + "." + stt.Field(fa.Field).Name()
+				fnm := name + "." + core.RefName(stt.Field(fa.Field))
 				if !holderFields[fnm] {
 					continue
 				}
@@ -350,7 +350,7 @@ func (a *sharedAnalysis) mutatedArgPositions(c *ssa.CallCommon) []int {
 	} else if c.IsInvoke() {
 		// interface method: c.Args exclude the receiver value (c.Value); parameters shift by one
 		for _, f := range a.fns {
-			if f.Name() == c.Method.Name() && f.Signature.Recv() != nil {
+			if f.Name() == core.RefName(c.Method) && f.Signature.Recv() != nil {
 				for i := range a.mutParam[f] {
 					if i >= 1 {
 						out = append(out, i-1)
